@@ -9,7 +9,14 @@ R155 = ["C15/R15.5/variable_versions::ipfix::Data::parse_be/cached-template-copi
 R57 = ["C05/R5.7/variable_versions::ipfix::FieldParser::parse/stop-criterion:ipfix-data"]
 V9C = ["C13/R13.3/<netflow_common::NetflowCommon as std::convert::From<&variable_versions::v9::V9>>::from/kind:%s" % x
        for x in ("protocol_number<-Protocol", "protocol_type<-Protocol", "first_seen<-FirstSwitched", "last_seen<-LastSwitched")]
-OLD_BASES = [("2d4f2e3", V9C),
-             ("1c167e7", V9C + P255),
-             ("d7a156f", V9C + P255 + R155),
-             ("e7d44c8", V9C + P255 + R155 + R57)]
+SGN = ["C04/R4.6/variable_versions::data_number::DataNumber::parse/no-narrowing:(8,True)",
+       "C04/R4.6/variable_versions::data_number::DataNumber::parse/no-narrowing:(16,True)",
+       "C05/R5.9/variable_versions::data_number::DataNumber::parse/no-narrowing:(8,True)",
+       "C05/R5.9/variable_versions::data_number::DataNumber::parse/no-narrowing:(16,True)"] + \
+      ["C09/R9.2/variable_versions::data_number::DataNumber::to_be_bytes/codec:SignedDataNumber:%d" % w for w in (1, 2, 8, 16)] + \
+      ["C10/R10.3/variable_versions::data_number::DataNumber::to_be_bytes/codec:SignedDataNumber:%d" % w for w in (1, 2, 8, 16)]
+OLD_BASES = [("120c5be", SGN),
+             ("2d4f2e3", SGN + V9C),
+             ("1c167e7", SGN + V9C + P255),
+             ("d7a156f", SGN + V9C + P255 + R155),
+             ("e7d44c8", SGN + V9C + P255 + R155 + R57)]
